@@ -33,6 +33,19 @@ def size(v):
         1 + sum(size(a) + size(b) for a, b in v[1]) if v[0] in ('dict', 'defaultdict', 'ordereddict', 'items') else 1
 
 
+def reorder_val(v):
+    """the same value with every dict / defaultdict built in the opposite insertion order and every set / frozenset built from
+    the reversed element list, at any depth (C02_iteration_order_independent_deep)"""
+    k = v[0]
+    if k in ('list', 'tuple', 'deque'):
+        return [k, [reorder_val(x) for x in v[1]]] + v[2:]
+    if k in ('set', 'frozenset'):
+        return [k, [reorder_val(x) for x in reversed(v[1])]] + v[2:]
+    if k in ('dict', 'defaultdict'):
+        return [k, [[reorder_val(a), reorder_val(b)] for a, b in reversed(v[1])]] + v[2:]
+    return v
+
+
 def gen_cases(rng, pid, tier):
     P = PROFILE[pid]
     t = 0 if tier == 'quick' else 1
@@ -61,6 +74,12 @@ def gen_cases(rng, pid, tier):
             cases.append({'stream': 'respell', 'ann': a2, 'val': v, 'ctx': G.CTX, 'obs': obs, 'grp': grp, 'twin': grp})
             if w is not None:
                 cases.append({'stream': 'respell', 'ann': a2, 'val': w, 'ctx': G.CTX, 'obs': obs, 'grp': grp, 'twin': grp + 1})
+        if pid == 'C02':
+            v2 = reorder_val(v)
+            if v2 != v:
+                cases.append({'stream': 'reorder', 'ann': a, 'val': v2, 'ctx': G.CTX, 'obs': obs, 'grp': grp, 'twin': grp})
+            if w is not None and reorder_val(w) != w:
+                cases.append({'stream': 'reorder', 'ann': a, 'val': reorder_val(w), 'ctx': G.CTX, 'obs': obs, 'grp': grp, 'twin': grp + 1})
         a3 = G.to_abc(rng, a)
         if a3 is not None:          # PEP 585 spelling of the abstract collections: outside the claimed vocabulary, still must be sound
             cases.append({'stream': 'abc-spelling', 'ann': a3, 'val': v, 'ctx': G.CTX, 'obs': 'avmt', 'grp': grp})
